@@ -35,7 +35,7 @@ use vhdl_lang::ast::*;
 use vhdl_lang::verif::data::{ContentReader, DiagnosticHandler};
 use vhdl_lang::verif::syntax::{
     kind_str, kinds_error, verif_expect_semicolon_or_last, verif_or_recover_until, verif_take_loop_trace, Kind,
-    Symbols, TokenStream, Tokenizer,
+    Symbols, TokenStream, Tokenizer, Value,
 };
 use vhdl_lang::{
     Diagnostic, HasTokenSpan, Position, Range, Source, SrcPos, Token, TokenAccess, TokenId, TokenSpan, VHDLParser,
@@ -106,6 +106,71 @@ impl TextIndex {
     }
     fn diag_range_ok(&self, r: Range) -> bool {
         self.range_in_text(r) || r == self.eof
+    }
+}
+
+/// The lines of the text (terminators LF, CR, CRLF removed), for slicing by UTF-16 columns.
+fn text_lines(text: &str) -> Vec<&str> {
+    let mut out = Vec::new();
+    let b = text.as_bytes();
+    let mut s = 0;
+    let mut i = 0;
+    while i < b.len() {
+        if b[i] == b'\n' || b[i] == b'\r' {
+            out.push(&text[s..i]);
+            if b[i] == b'\r' && i + 1 < b.len() && b[i + 1] == b'\n' {
+                i += 1;
+            }
+            s = i + 1;
+        }
+        i += 1;
+    }
+    out.push(&text[s..]);
+    out
+}
+
+/// Tokens whose value carries the source text of the literal (bit strings are re-read from the line
+/// by `ContentReader::value_at`, abstract literals are collected while scanning): that text must be
+/// the source between the token's UTF-16 columns.  One UTF-16 encoding per line is cached.
+fn check_literal_texts(text: &str, toks: &[Token], viol: &mut Vec<String>) {
+    let mut lines: Option<Vec<&str>> = None;
+    let mut cached: Option<(usize, Vec<u16>)> = None;
+    for t in toks {
+        let lit = match &t.value {
+            Value::BitString(txt, _) => txt.to_string(),
+            Value::AbstractLiteral(txt, _) => txt.to_string(),
+            _ => continue,
+        };
+        let r = t.pos.range();
+        if r.start.line != r.end.line {
+            continue;
+        }
+        let ls = lines.get_or_insert_with(|| text_lines(text));
+        let ln = r.start.line as usize;
+        if ln >= ls.len() {
+            continue; // reported by the range checks
+        }
+        if cached.as_ref().map(|c| c.0) != Some(ln) {
+            cached = Some((ln, ls[ln].encode_utf16().collect()));
+        }
+        let u = &cached.as_ref().unwrap().1;
+        let (a, b) = (r.start.character as usize, r.end.character as usize);
+        if a > b || b > u.len() {
+            continue;
+        }
+        let slice = String::from_utf16_lossy(&u[a..b]);
+        if slice != lit {
+            if viol.len() < 6 {
+                viol.push(format!(
+                    "token {} at {} carries the literal text {:?}, the source between its columns is {:?}",
+                    kind_str(t.kind),
+                    fmt_range(r),
+                    lit,
+                    slice
+                ));
+            }
+            return;
+        }
     }
 }
 
@@ -682,6 +747,9 @@ fn oracle(parser: &VHDLParser, text: &str) -> String {
         }
     };
     let diags = h.v;
+
+    // (0) literal texts
+    check_literal_texts(text, &toks, &mut viol);
 
     // (1) slices
     let mut at = 0usize;
@@ -1517,6 +1585,62 @@ fn gen(seed: u64, tier: &str, out_path: &str) {
     }
     emit("nonlatin", "x\u{20ac}");
     emit("nonlatin", "entity e is end; -- \u{1F600}\n\u{20ac} entity");
+    // 12. mixed-width characters: N characters outside the BMP (2 UTF-16 units, 1 char, 4 UTF-8 bytes) in a block
+    //     comment, a string or stray, BEFORE a token whose value is (re-)read from the line, followed after 0-6
+    //     Latin-1 characters by a 2-, 3- or 4-byte character (stray or in a line comment) — columns are UTF-16
+    //     units, any confusion with code points or bytes shifts the text window of the literal
+    {
+        let astral = ["\u{1F527}", "\u{1D11E}", "\u{20000}", "\u{1F600}"];
+        let toks = [
+            "x\"3F\"", "b\"01\"", "8x\"AB\"", "12d\"13\"", "ub\"1\"", "sx\"f\"", "16#FF#", "2#1010#e2", "16:FF:", "1.5e3",
+            "123", "\"str\"", "\\ext\\", "'c'", "abc", "3 ns",
+        ];
+        let tails = ["\u{0416}", "\u{2192}", "\u{1F600}", "\u{00e9}"];
+        let gaps = ["", ";", "; ", ";--", " ;  ", ";-- >", " + 1 ; "];
+        for n in 1..=5usize {
+            for (ti, tok) in toks.iter().enumerate() {
+                for (gi, gap) in gaps.iter().enumerate() {
+                    for (ai, tail) in tails.iter().enumerate() {
+                        let a = astral[(n + ti + gi) % astral.len()].repeat(n);
+                        let pre = match (n + ti + gi + ai) % 4 {
+                            0 => format!("/* {} tuning */ ", a),
+                            1 => format!("{} ", a),
+                            2 => format!("/*{}*/", a),
+                            _ => format!("\"{}\" & ", a),
+                        };
+                        let line = format!("{}constant k : t := {}{}{} 63", pre, tok, gap, tail);
+                        let text = match (ti + gi + ai) % 3 {
+                            0 => line,
+                            1 => format!("package p is\n{}\nend;", line),
+                            _ => format!("package p is -- {}\r\n  {}\r\nend package;\n", astral[ai], line),
+                        };
+                        emit("astral", &text);
+                    }
+                }
+            }
+        }
+        for _ in 0..(1500 * scale) {
+            // random lines over a mixed-width alphabet with literals in between
+            let n = 2 + r.below(14);
+            let mut line = String::new();
+            for _ in 0..n {
+                match r.below(9) {
+                    0 | 1 => line.push_str(*r.pick(&astral)),
+                    2 => line.push_str(*r.pick(&tails)),
+                    3 | 4 => {
+                        line.push_str(*r.pick(&toks));
+                    }
+                    5 => line.push_str(*r.pick(&["/*", "*/", "--", " ", ";", "\n", " := "])),
+                    6 => line.push(' '),
+                    _ => line.push_str(*r.pick(WORDS)),
+                }
+                if r.chance(1, 2) {
+                    line.push(' ');
+                }
+            }
+            emit("astral", &format!("{}{}", if r.chance(1, 2) { *r.pick(PREFIXES) } else { "" }, line));
+        }
+    }
     // 10. nesting depth (regression of F41: limit 256 since 674ec0b), long iterative chains, nested
     //     interface subprograms; each on the main thread and on a 2 MiB-stack thread (`@2m`)
     let mut emit_recipe = |class: String, recipe: String| {
